@@ -247,6 +247,17 @@ func (s *Sched) park(t *Task, site string, lock any, mode int, notBefore time.Ti
 	t.waitMode = mode
 	t.notBefore = notBefore
 	s.yieldCount[classOf(site)]++
+	if s.draining.Load() {
+		// Drain/KillAll started while we were on our way here: they may already have
+		// collected the parked tasks, so do not wait for a release that never comes
+		t.state = stRunning
+		kill := t.kill
+		s.mu.Unlock()
+		if kill {
+			runtime.Goexit()
+		}
+		return
+	}
 	s.mu.Unlock()
 	s.notify()
 	<-t.wake
